@@ -29,7 +29,7 @@ import numpy as np
 from harness.common import Run, split_top
 from harness import c06_ops as O
 from harness import c06_prog as P
-from harness.c06_rt import Pool, run_model
+from harness.c06_rt import Pool, run_model, run_reference
 
 CONE = ["Infer.v", "InferFacts.v"]
 PROPS = "props/C06.v"
@@ -213,6 +213,55 @@ def routines(run: Run, pool: Pool, n_per_op: int, cov: dict):
     return len(cases), len(cases) - len(mism), len(mism), samples, len(rt_exprs)
 
 
+# ------------------------------------------------------------------------------------------------ LabelEncoder
+
+
+def label_encoder_oracle(run: Run, pool: Pool, n: int, cov: dict):
+    """LabelEncoder has no spox-side routine in this tree (ml/v3.py:244, ml/v4.py:61: ONNX's own inference), so there is
+    nothing to model; its reported type is checked against onnxruntime directly."""
+    import spox
+    from spox import Tensor, argument
+
+    rng = run.rng
+    ml, _ = modules()
+    kv = {"f32": ("floats", [0.5, 1.5]), "i64": ("int64s", [1, 2]), "str": ("strings", ["c0", "c1"])}
+    jobs, meta, rejected = [], [], 0
+    for k in range(n):
+        ke, ve = rng.choice(list(kv)), rng.choice(list(kv))
+        xe = ke if rng.random() < 0.85 else rng.choice(list(kv))
+        shape = O.gen_shape(rng, p_unknown_rank=0.0)
+        c = {"op": "LabelEncoder", "ins": [("T", xe, shape)], "attrs": {"keys": ke, "values": ve}}
+        x = argument(Tensor(O.ELEMS[xe][0], shape))
+        try:
+            with warnings.catch_warnings():
+                warnings.simplefilter("ignore")
+                y = ml[(3, 4, 5)[k % 3]].label_encoder(x, **{f"keys_{kv[ke][0]}": kv[ke][1], f"values_{kv[ve][0]}": kv[ve][1]})
+                m = spox.build({"in0": x}, {"out0": y})
+        except Exception:  # noqa: BLE001
+            rejected += 1
+            continue
+        fl, info = [], []
+        for asg in O.assignments(rng, c, 5):
+            shapes = O.concrete_shapes(c, asg)
+            fl.append({"in0": O.feed_value(rng, xe, shapes[0], "data")})
+            info.append(shapes)
+        jobs.append((m.SerializeToString(), fl, True))
+        meta.append((c, O.td_of_type(y.type), info))
+    res = pool.map(run_model, jobs)
+    ok = 0
+    for (c, td, info), r in zip(meta, res):
+        for shapes, rr in zip(info, r["runs"]):
+            if rr[0] != "ok":
+                continue
+            ok += 1
+            kind = O.conforms_py(rr[1][0][0], rr[1][0][1], td)
+            if kind is not None:
+                run.fail("impl", f"C06/LabelEncoder/{kind}", "LabelEncoder: a runtime value does not conform to the reported type",
+                         {"kind": "other", "case": c, "input_shapes": shapes, "reported": O.norm(O.coq_ity(td)), "runtime": rr[1]})
+    cov["label_encoder"] = {"calls": n, "rejected_by_constructor_or_build": rejected, "models": len(jobs), "runs_ok": ok}
+    return ok
+
+
 # ------------------------------------------------------------------------------------------------ inline correspondence
 
 
@@ -372,6 +421,7 @@ def run_programs(run: Run, pool: Pool, progs, cov: dict, tag: str):
     stats = {"programs": len(progs), "built": 0, "build_failed": 0, "vars_exposed": 0, "steps": 0, "ops": {}, "loop_nodes": 0,
              "load_ok": 0, "load_stripped": 0, "load_err": 0, "runs_ok": 0, "runs_err": 0, "values_compared": 0, "unknown_dim_vars": 0}
     loop_terms = []
+    feed_of = {}
     for pi, prog in enumerate(progs):
         ins, env, origin = P.interpret(prog, opmods)
         stats["steps"] += len(prog["steps"])
@@ -403,6 +453,8 @@ def run_programs(run: Run, pool: Pool, progs, cov: dict, tag: str):
             info.append((shapes, trip))
         jobs.append((m.SerializeToString(), feeds, True))
         meta.append((pi, [(i, O.td_of_type(v.type)) for i, v in exposed], origin, info))
+        for f, (shapes, trip) in zip(feeds, info):
+            feed_of[(pi, tuple(map(tuple, shapes)), trip)] = f
     t0 = time.time()
     results = pool.map(run_model, jobs)
     stats["ort_wall_s"] = round(time.time() - t0, 1)
@@ -428,15 +480,19 @@ def run_programs(run: Run, pool: Pool, progs, cov: dict, tag: str):
                 kind = O.conforms_py(o[0], o[1], td)
                 if kind is not None:
                     badvars[i] = (kind, o, td)
-            empty = any(0 in s for s in shapes)
+            rt_shape = {k: tuple(s) for k, s in enumerate(shapes)}
+            for nm, o in zip(res["names"], r[1]):
+                rt_shape[name2[nm][0]] = tuple(o[1])
             for i, (kind, o, td) in sorted(badvars.items()):
                 org = origin[i]
                 prog = progs[pi]
-                if any(d in badvars for d in step_deps(prog["steps"][org["step"]])):
+                deps = step_deps(prog["steps"][org["step"]])
+                if any(d in badvars for d in deps):
                     stats["derived_nonconforming"] = stats.get("derived_nonconforming", 0) + 1
                     continue  # an operand already violates its type: not the root cause
-                if empty:
-                    kind += "/empty-input"
+                if any(0 in rt_shape.get(d, ()) for d in deps):
+                    kind = "empty-input"  # one mechanism whatever the symptom (rank / dim): an empty operand
+                degenerate = any(0 in rt_shape.get(d, (1,)) or rt_shape.get(d, (1,)) == () for d in deps)
                 if org["op"] == "Loop":
                     first = min(j for j, oo in enumerate(origin) if oo["step"] == org["step"])
                     carried = (i - first) < len(prog["steps"][org["step"]]["args"])
@@ -446,9 +502,59 @@ def run_programs(run: Run, pool: Pool, progs, cov: dict, tag: str):
                 else:
                     key = f"C06/{org['op']}/{kind}"
                 size = len(json.dumps(prog["steps"])) + 50 * trip + sum(sum(s) for s in shapes)
-                viol.setdefault(key, []).append((size, pi, i, shapes, trip, o, td, res["load"]))
+                viol.setdefault(key, []).append((size, pi, i, shapes, trip, o, td, res["load"], feed_of[(pi, tuple(map(tuple, shapes)), trip)],
+                                                 degenerate))
+    # Arbitration for operators typed by ONNX's own inference: when ONNX's reference implementation yields a value that
+    # conforms to the reported type, ONNX is consistent with itself and it is onnxruntime that deviates from the
+    # operator specification (observed on empty tensors and scalars) — recorded as an environment discrepancy, not as
+    # a defect of spox.  Types computed by spox's own routines (Loop@<=18 carried, Compress, inline) are never arbitrated.
+    env_notes = {}
+    for key in sorted(viol):
+        opn = key.split("/")[1]
+        if opn in ("Loop", "Compress", "Inline") or not viol[key]:
+            continue
+        cands = sorted(viol[key], key=lambda x: x[:2])[:3]
+        rjobs, keep = [], []
+        for cand in cands:
+            size, pi, i, shapes, trip, o, td, load, feed, degenerate = cand
+            _, _, origin = P.interpret(progs[pi], opmods)
+            small, new_i = cone_of(progs[pi], origin, i)
+            if small is None:
+                keep.append(cand)
+                continue
+            try:
+                with warnings.catch_warnings():
+                    warnings.simplefilter("ignore")
+                    ins2, env2, _ = P.interpret(small, opmods)
+                    m2 = spox.build({f"in{k}": v for k, v in enumerate(ins2)}, {"v": env2[new_i]})
+                rjobs.append(((m2.SerializeToString(), [feed], False), cand))
+            except Exception:  # noqa: BLE001
+                keep.append(cand)
+        rres = pool.map(run_reference, [j for j, _ in rjobs])
+        n_env = n_undef = 0
+        for (_, cand), rr in zip(rjobs, rres):
+            ok = rr["load"] == "ok" and rr["runs"] and rr["runs"][0][0] == "ok"
+            if ok and O.conforms_py(rr["runs"][0][1][0][0], rr["runs"][0][1][0][1], cand[6]) is None:
+                n_env += 1
+            elif rr["load"] == "ok" and rr["runs"] and rr["runs"][0][0] == "err" and cand[9]:
+                # degenerate operand (empty or scalar) on which ONNX's reference implementation defines no value at all
+                # (e.g. ArgMax over an empty axis, NonZero of a scalar, Concat of mismatching shapes one of which is
+                # empty): onnxruntime is lenient there; no defined runtime value contradicts the type
+                n_undef += 1
+            else:
+                keep.append(cand)
+        if not keep:
+            env_notes[key] = {"occurrences": len(viol[key]), "reference_conforms": n_env, "reference_defines_no_value": n_undef, "example": {
+                "program": cone_of(progs[cands[0][1]], P.interpret(progs[cands[0][1]], opmods)[2], cands[0][2])[0],
+                "input_shapes": cands[0][3], "reported": O.norm(O.coq_ity(cands[0][6])), "onnxruntime": cands[0][5]}}
+            viol[key] = []
+        else:
+            viol[key] = keep
+    stats["onnxruntime_deviates_from_onnx"] = env_notes
     for key, lst in sorted(viol.items()):
-        size, pi, i, shapes, trip, o, td, load = min(lst, key=lambda x: x[:2])
+        if not lst:
+            continue
+        size, pi, i, shapes, trip, o, td, load, _feed, _dg = min(lst, key=lambda x: x[:2])
         prog = progs[pi]
         _, _, origin = P.interpret(prog, opmods)
         small, new_i = cone_of(prog, origin, i)
@@ -516,20 +622,21 @@ def run(run: Run) -> int:
     cov: dict = {}
     pool = Pool(max(2, min(12, (os.cpu_count() or 4) - 2)))
     t = time.time()
-    n_calls, n_ok, n_mism, samples, n_rt = routines(run, pool, 110 if quick else 900, cov)
+    n_calls, n_ok, n_mism, samples, n_rt = routines(run, pool, 320 if quick else 2500, cov)
+    n_le = label_encoder_oracle(run, pool, 60 if quick else 500, cov)
     cov["phase_wall_s"] = {"routines": round(time.time() - t, 1)}
     t = time.time()
-    n_inl, n_inl_mism, inl_samples = inline_corr(run, 150 if quick else 1500, cov)
+    n_inl, n_inl_mism, inl_samples = inline_corr(run, 400 if quick else 3000, cov)
     cov["phase_wall_s"]["inline"] = round(time.time() - t, 1)
     t = time.time()
     _, opmods = modules()
     rng = run.rng
-    loops = [copy.deepcopy(p) for p in LOOP_CORPUS] + [gen_loop_program(rng) for _ in range(60 if quick else 500)]
+    loops = [copy.deepcopy(p) for p in LOOP_CORPUS] + [gen_loop_program(rng) for _ in range(250 if quick else 2000)]
     lstats, n_loop, n_loop_mism = run_programs(run, pool, loops, cov, "loop")
     cov["phase_wall_s"]["loop"] = round(time.time() - t, 1)
     t = time.time()
     progs = []
-    for _ in range(140 if quick else 1400):
+    for _ in range(500 if quick else 4000):
         p = P.gen_program(rng, rng.choice([4, 6, 8, 10]), rng.choice([17, 17, 18, 19, 21]))
         progs.append(P.grow_program(rng, p, opmods))
     pstats, n_loop2, n_loop_mism2 = run_programs(run, pool, progs, cov, "random")
@@ -544,7 +651,7 @@ def run(run: Run) -> int:
                 "list, non-trivial = at least 3 accepted steps",
         "traces_validated_against_impl": n_ok + (n_inl - n_inl_mism) + (n_loop - n_loop_mism) + (n_loop2 - n_loop_mism2),
         "disagreements_checked": n_mism + n_inl_mism + n_loop_mism + n_loop_mism2,
-        "runtime_values_compared": cov["routine_runtime"]["runs_ok"] + lstats["values_compared"] + pstats["values_compared"],
+        "runtime_values_compared": cov["routine_runtime"]["runs_ok"] + n_le + lstats["values_compared"] + pstats["values_compared"],
         "samples": samples + inl_samples,
         "input_distribution": {"routines": cov.pop("routine_input_distribution"), "program_ops": pstats["ops"],
                                "program_opsets": {str(v): sum(p["opset"] == v for p in progs) for v in (17, 18, 19, 21)}},
